@@ -778,6 +778,9 @@ def _encl(kind, c0):
     import mpmath
     mpmath.mp.dps = 50
     x = mpmath.mpf(c0.numerator) / mpmath.mpf(c0.denominator)
+    if kind == "exp" and abs(x) > 2000:
+        # far beyond any float exponent: a coarse but valid enclosure (exp(-2000) < 1e-800, exp(2000) > 1e800)
+        return (z3.RealVal(0), z3.RealVal("1/" + "1" + "0" * 800)) if x < 0 else (z3.RealVal("1" + "0" * 800), z3.RealVal("1" + "0" * 800) * z3.RealVal("1" + "0" * 800) * toreal(Fraction(abs(c0)) + 1))
     v = mpmath.exp(x) if kind == "exp" else mpmath.log(x)
     eps = mpmath.mpf(10) ** -35
     lo, hi = (v * (1 - eps), v * (1 + eps)) if v > 0 else (v * (1 + eps), v * (1 - eps))
